@@ -78,6 +78,10 @@ type poolCfg struct {
 	// GateAfter: requests of mode "gate" issued by the clients stay inside their rule until that many
 	// requests have returned (0: no such requests among the clients')
 	GateAfter int `json:"gate_after,omitempty"`
+	// Clear: a manager thread clears the pool's rules while every instance is parked inside a rule (and
+	// other requests wait), opens the gate and installs the rules again; requests of that phase may then
+	// legitimately fail with "no rule", the conservation phase afterwards is judged as usual
+	Clear bool `json:"clear,omitempty"`
 }
 
 type PoolReq struct {
@@ -113,6 +117,7 @@ type poolState struct {
 	maxIn    int
 	gateOpen bool
 	gateCnt  int
+	mgrErr   error
 	notes    []string
 	newErr   error
 	apiCache map[string]interface{}
@@ -182,6 +187,8 @@ func poolApis() map[string]interface{} {
 		"seen": func(id, r int64) { activePool.apis()["seen"].(func(int64, int64))(id, r) },
 		"opt":  func(id, v int64) { activePool.apis()["opt"].(func(int64, int64))(id, v) },
 		"cf":   func(x int, y float32) { activePool.apis()["cf"].(func())() },
+		// a pool-level default object under a name that requests may inject themselves
+		"other": &PoolOther{V: -1},
 	}
 }
 
@@ -262,8 +269,10 @@ func (st *poolState) makeApis() map[string]interface{} {
 			l.Ev3("opt", id, v)
 			o := check("opt", id)
 			if o != nil && !o.probe {
-				if !o.spec.Other {
-					st.note("isolation|opt: request %d did not inject `other` but read other.V=%d", o.id, v)
+				if pm := gx.PoolMethodByName(st.cfg.Method); !o.spec.Other || (pm != nil && pm.ReqResp) {
+					if v != -1 { // -1: the pool's own default object registered under that name
+						st.note("isolation|opt: request %d did not inject `other` but read other.V=%d", o.id, v)
+					}
 				} else if v != o.id+1000 {
 					st.note("isolation|opt: request %d read other.V=%d, not its own", o.id, v)
 				}
@@ -361,6 +370,14 @@ func poolScenario(cfg poolCfg) *hx.Scenario {
 					for _, r := range mine {
 						vsched.AccM(r.res, vsched.SiteClientRead, false) // ... and may read it again at any later time
 					}
+				})
+			}
+			if cfg.Clear {
+				vsched.Go(func() {
+					vsched.WaitUntil(func() bool { return st.gateCnt >= int(cfg.Max) })
+					gp.ClearPoolRules()
+					st.gateOpen = true
+					st.mgrErr = gp.UpdatePooledRules(poolRules)
 				})
 			}
 			if cfg.GateAfter > 0 {
@@ -472,9 +489,12 @@ func poolOracle(cfg poolCfg, m *gx.PoolMethod, st *poolState, ex *vsched.Exec) (
 		if st.maxIn > int(cfg.Max) {
 			bad(m.Name+":capacity", fmt.Sprintf("%d rule executions were in flight simultaneously, pool max is %d", st.maxIn, cfg.Max))
 		}
+		if st.mgrErr != nil {
+			bad(m.Name+":manager", fmt.Sprintf("re-installing the rules after ClearPoolRules failed: %v", st.mgrErr))
+		}
 		// a request may fail only for its own reasons, never because of contention
 		for _, r := range st.recs {
-			if r.probe {
+			if r.probe || (cfg.Clear && r.id < 100) {
 				continue
 			}
 			wantErr := r.spec.Mode == modePanic || r.spec.Mode == modeError || r.spec.Mode == modeNilMap || !(r.spec.Other && !m.ReqResp)
@@ -485,13 +505,17 @@ func poolOracle(cfg poolCfg, m *gx.PoolMethod, st *poolState, ex *vsched.Exec) (
 				}
 				continue
 			}
-			if (r.err != nil) != wantErr {
+			mustErr := r.spec.Mode == modePanic || r.spec.Mode == modeError || r.spec.Mode == modeNilMap
+			// a request that does not inject `other` finds the pool's default object under that name on an
+			// instance no request has used yet, and nothing afterwards: either outcome is gengine's documented
+			// behaviour (request data replaces an api of the same name and is deleted with the request)
+			if (mustErr && r.err == nil) || (!wantErr && r.err != nil) {
 				bad(m.Name+":error-mismatch", fmt.Sprintf("request %d: error=%v, expected error=%v (requests must wait for an instance, not fail; failures must be reported)", r.id, r.err, wantErr))
 			}
 		}
 		// every request's rule body ran exactly once
 		for _, r := range st.recs {
-			if r.probe {
+			if r.probe || (cfg.Clear && r.id < 100) {
 				continue
 			}
 			if st.log.Count("in", r.id) != 1 {
